@@ -1363,7 +1363,6 @@ def shortest_int(data: np.ndarray, percent: float=50) -> tuple[float, float]:
         data = np.sort(data)
         lag = int(len(data) * percent/100)
         diff = diff_lag(data, lag)
-        i = np.where(np.abs(diff - np.min(diff)) < 1e-10)[0]
-        if len(i) > 1:
-            i = int(np.mean(i))
+        ties = np.where(diff == np.min(diff))[0]  # every shortest interval (exact ties, independent of the data's unit)
+        i = ties[len(ties) // 2]  # the middle one of the tied minimisers: always itself a minimiser
         return np.array((data[i], data[i + lag]))
